@@ -29,6 +29,7 @@ structure NSt where
   natNodes : List Nat := []
   natSeen : List (Nat × NAddr × Int) := []
   args : List (Nat × List String) := []
+  marks : List (String × Nat) := []
 
 def NSt.env (st : NSt) : CryptoEnv :=
   { keyHash := fun pk salt => (Sha256.sha256 (pk ++ salt)).take 4,
@@ -202,7 +203,7 @@ def nodeStepNew (st : NSt) (port : String) (fs : List String) (implObs : String)
 def nodeStepReplay (st : NSt) (args : List String) (implObs : String) : Option (NSt × String × String) :=
   match args with
   | k :: muts =>
-    match (k.drop 1).toString.toNat?, (muts.head?).bind String.toNat?, muts[1]? with
+    match (if k.startsWith "m:" then st.marks.lookup (k.drop 2).toString else (k.drop 1).toString.toNat?), (muts.head?).bind String.toNat?, muts[1]? with
     | some w, some port, some src =>
       match st.wire[w]? with
       | none => some (st, "none-on-wire", "-")
@@ -243,6 +244,9 @@ def nodeStep (st : NSt) (t : List String) (implObs : String) : Option (NSt × St
     if st.wire.isEmpty then some (st, "none-on-wire", "-")
     else nodeStepReplay st (s!"w{st.wire.length - 1}" :: rest) implObs
   | "nexpect" :: _ => some (st, "ok", "-")
+  | ["nmark", name] =>
+    if st.wire.isEmpty then some (st, "none-on-wire", "-")
+    else some ({ st with marks := (name, st.wire.length - 1) :: st.marks }, "ok", "-")
   | ["nrestart", port] =>
     match port.toNat?.bind (fun p => (st.args.find? (·.1 = p)).map (·.2)) with
     | some fs => nodeStepNew st port fs implObs
@@ -341,8 +345,8 @@ def nodeStep (st : NSt) (t : List String) (implObs : String) : Option (NSt × St
         | none => some (st, "bad-op", "-")
       | _, _, _ => some (st, "bad-op", "-")
     else if op = "nreplay" then
-      -- nreplay w<k> <to> <from|orig> [mut…]
-      match (k.drop 1).toString.toNat?, (muts.head?).bind String.toNat?, muts[1]? with
+      -- nreplay w<k>|m:<mark> <to> <from|orig> [mut…]
+      match (if k.startsWith "m:" then st.marks.lookup (k.drop 2).toString else (k.drop 1).toString.toNat?), (muts.head?).bind String.toNat?, muts[1]? with
       | some w, some port, some src =>
         match st.wire[w]? with
         | none => some (st, "none-on-wire", "-")
